@@ -408,6 +408,7 @@ type Explorer struct {
 	Entry   *ssa.Function
 	IntArgs []int64 // concrete integer arguments of the entry point
 	Workers int
+	Witness int // number of path witnesses to collect for native validation
 
 	mu      sync.Mutex
 	stack   [][]Decision
@@ -417,7 +418,16 @@ type Explorer struct {
 	stopped bool
 }
 
+type Witness struct {
+	Values       []NondetValue
+	Observations []Observation
+	Labels       []string
+	Path         string
+}
+
 type Report struct {
+	Witnesses    []Witness
+	WantWitness  int
 	Harness      string
 	Paths        int
 	Completed    int
@@ -468,6 +478,12 @@ func (e *Explorer) pop() ([]Decision, bool) {
 	}
 }
 
+func (e *Explorer) wantWitness() bool {
+	e.mu.Lock()
+	defer e.mu.Unlock()
+	return len(e.rep.Witnesses) < e.rep.WantWitness
+}
+
 func (e *Explorer) done() {
 	e.mu.Lock()
 	e.active--
@@ -479,7 +495,7 @@ func (e *Explorer) Run() *Report {
 	t0 := time.Now()
 	e.cond = sync.NewCond(&e.mu)
 	e.rep = &Report{Harness: e.Name, Labels: map[string]*LabelStats{}, Unsupported: map[string]int{}, Notes: map[string]int{},
-		Assumptions: map[string]bool{}, Funcs: map[string]bool{}, SQL: map[string]bool{}}
+		Assumptions: map[string]bool{}, Funcs: map[string]bool{}, SQL: map[string]bool{}, WantWitness: e.Witness}
 	e.stack = [][]Decision{nil}
 	if e.Workers <= 0 {
 		e.Workers = 1
@@ -588,6 +604,48 @@ func (e *Explorer) runPath(ctx *smt.Ctx, sess *smt.Session, pfx []Decision) {
 			g()
 		}
 	}()
+	var wit *Witness
+	if status == "completed" && e.wantWitness() {
+		func() {
+			defer func() {
+				if r := recover(); r != nil {
+					wit = nil
+				}
+			}()
+			if sess.Check() != smt.Sat {
+				return
+			}
+			var ts []*smt.Term
+			for _, n := range p.nondets {
+				ts = append(ts, n.Term)
+			}
+			var oi []int
+			for i, o := range in.observed {
+				if o.term != nil {
+					ts = append(ts, o.term)
+					oi = append(oi, i)
+				}
+			}
+			vals, err := sess.Values(ts)
+			if err != nil {
+				return
+			}
+			w := &Witness{Path: traceString(p.trace)}
+			for i, n := range p.nondets {
+				w.Values = append(w.Values, NondetValue{Name: n.Name, Kind: n.Kind, Val: in.renderValue(n.Kind, vals[i])})
+			}
+			obs := append([]Observation{}, in.observed...)
+			for k, i := range oi {
+				obs[i].Val = in.renderObs(vals[len(p.nondets)+k], obs[i].uns)
+			}
+			w.Observations = obs
+			for l := range p.labels {
+				w.Labels = append(w.Labels, l)
+			}
+			sort.Strings(w.Labels)
+			wit = w
+		}()
+	}
 	if p.pos < len(p.prefix) && status == "completed" {
 		status = "unsupported"
 		unsup = fmt.Sprintf("replay divergence: prefix of %d decisions, only %d consumed", len(p.prefix), p.pos)
@@ -596,6 +654,9 @@ func (e *Explorer) runPath(ctx *smt.Ctx, sess *smt.Session, pfx []Decision) {
 	defer e.mu.Unlock()
 	rep := e.rep
 	rep.Paths++
+	if wit != nil && len(rep.Witnesses) < rep.WantWitness {
+		rep.Witnesses = append(rep.Witnesses, *wit)
+	}
 	switch status {
 	case "completed", "panic":
 		rep.Completed++
